@@ -2,6 +2,7 @@ import MokapotVerif.Lemmas.FitLabels
 import MokapotVerif.Lemmas.FitStart
 import MokapotVerif.Lemmas.FitClasses
 import MokapotVerif.Lemmas.FitPredict
+import MokapotVerif.Lemmas.FitSearch
 /-!
 # C12 — Training feeds the estimator rows and labels of the same PSM, in any order
 
@@ -19,7 +20,7 @@ library; `Model.save`/`load_model` contain no logic of their own besides the
 Percolator-weights probe) and "beyond solver tolerance" (real solvers).
 -/
 namespace Mk.Fit
-variable {α β ρ θ ν : Type}
+variable {α β ρ θ ν π : Type}
 
 /-- `original_idx = argsort(shuffled_idx)` undoes `shuffled_idx`: `xs[σ][argsort σ] = xs`
 for every permutation σ of `0..n-1`. -/
@@ -359,6 +360,223 @@ theorem C12_refit_is_aligned_loop (est : Est ρ α θ) (le : α → α → Bool)
     simp only [Option.map_some, Option.getD_some, finish]
     split <;> rfl
 
+/-! ## The hyper-parameter search (`_find_hyperparameters`) in front of the loop
+
+`hs : HyperSearch ρ θ π` is an arbitrary search (`search` = GridSearchCV & co. as a black-box
+function of the example list, `configure` = `set_params(**best_params_)`), `needsCv` the
+`_needs_cv` flag.  `fitLoopCv` / `fitModelCv` are `fitLoop` / `fitModel` preceded by that step,
+with the data flow of the code (shuffled features *and* shuffled start labels go to the search). -/
+
+/-- **Search alignment.**  For every permutation, shuffle on or off, any search function: the
+example list handed to the search is exactly the σ'-arrangement (σ' = the permutation actually
+applied, the identity when shuffling is off) of the pairs (row of PSM `i`, start label of PSM `i`
+is +1) over the PSMs with a non-zero start label — hence a permutation of the PSM-ordered
+`trainSet rows start`; every example is the row of some PSM with the class of that same PSM. -/
+theorem C12_search_pairs_aligned (hs : HyperSearch ρ θ π) (needsCv : Bool) (est : Est ρ α θ)
+    (relabel : List α → List Int) (shuffle : Bool) (perm : List Nat) (k : Nat) (th0 : θ) (rows : List ρ)
+    (start : List Int) (hp : perm.Perm (List.range rows.length)) (hst : start.length = rows.length) :
+    ∀ ex ∈ (fitLoopCv hs needsCv est relabel shuffle perm k th0 rows start).searches,
+      ex = (if shuffle then perm else List.range rows.length).filterMap (pairAt rows start) ∧
+      ex.Perm (trainSet rows start) ∧
+      ∀ p : ρ × Bool, p ∈ ex ↔
+        ∃ (i : Nat) (l : Int), rows[i]? = some p.1 ∧ start[i]? = some l ∧ l ≠ 0 ∧ p.2 = (l == 1) := by
+  intro ex hex
+  rw [fitLoopCv_eq hs needsCv est relabel shuffle perm k th0 rows start hp hst] at hex
+  have hperm := appliedOrder_perm shuffle perm rows.length hp
+  have hex' : ex = cvSpec (appliedOrder shuffle perm rows.length) rows start := by
+    simp only at hex
+    split at hex
+    · simpa using hex
+    · simp at hex
+  subst hex'
+  refine ⟨rfl, filterMap_pairAt_perm rows start _ rows.length hperm rfl hst, ?_⟩
+  intro p
+  rw [mem_cvSpec]
+  constructor
+  · rintro ⟨i, _, hi⟩
+    obtain ⟨l, h⟩ := (pairAt_eq_some_iff rows start i p).mp hi
+    exact ⟨i, l, h⟩
+  · rintro ⟨i, l, h⟩
+    refine ⟨i, ?_, (pairAt_eq_some_iff rows start i p).mpr ⟨l, h⟩⟩
+    have hi : i < rows.length := by
+      by_contra hc
+      rw [List.getElem?_eq_none (by omega)] at h
+      exact absurd h.1 (by simp)
+    exact hperm.mem_iff.mpr (List.mem_range.mpr hi)
+
+/-- **The search runs iff `_needs_cv`, exactly once, before the first loop fit.**  The list of
+search calls is `[examples]` when `needsCv` and empty otherwise; the loop that follows is the
+loop of `C12_fit_pairs_aligned` started from the estimator state the search configured (so the
+first loop `fit` receives the outcome of the search) resp. from the untouched estimator; and
+`_needs_cv` is off afterwards (a later `fit` does not search again). -/
+theorem C12_search_once (hs : HyperSearch ρ θ π) (needsCv : Bool) (est : Est ρ α θ)
+    (relabel : List α → List Int) (shuffle : Bool) (perm : List Nat) (k : Nat) (th0 : θ) (rows : List ρ)
+    (start : List Int) (hp : perm.Perm (List.range rows.length)) (hst : start.length = rows.length) :
+    (fitLoopCv hs needsCv est relabel shuffle perm k th0 rows start).searches
+      = (if needsCv then [cvSpec (if shuffle then perm else List.range rows.length) rows start] else []) ∧
+    (fitLoopCv hs needsCv est relabel shuffle perm k th0 rows start).loop
+      = fitLoop est relabel shuffle perm k
+          (if needsCv then
+            hs.configure (hs.search (cvSpec (if shuffle then perm else List.range rows.length) rows start)) th0
+           else th0) rows start ∧
+    (fitLoopCv hs needsCv est relabel shuffle perm k th0 rows start).needsCv = false := by
+  rw [fitLoopCv_eq hs needsCv est relabel shuffle perm k th0 rows start hp hst]
+  exact ⟨rfl, rfl, rfl⟩
+
+/-- the number of search calls needs no hypothesis at all -/
+theorem C12_search_count (hs : HyperSearch ρ θ π) (needsCv : Bool) (est : Est ρ α θ)
+    (relabel : List α → List Int) (shuffle : Bool) (perm : List Nat) (k : Nat) (th0 : θ) (rows : List ρ)
+    (start : List Int) :
+    (fitLoopCv hs needsCv est relabel shuffle perm k th0 rows start).searches.length = (if needsCv then 1 else 0) := by
+  show (findHyper hs needsCv th0 _ _).searches.length = _
+  rw [findHyper_searches]
+  split <;> rfl
+
+/-- with `_needs_cv` off, `Model.fit` with the search step *is* the `fitModel` of the theorems above
+(no search call, no hypothesis) -/
+theorem C12_search_off (hs : HyperSearch ρ θ π) (est : Est ρ α θ) (le : α → α → Bool) (thr : Rat)
+    (cfg : FitCfg) (th0 : θ) (rows : List ρ) (cols : List (List α)) (targets : List Bool) :
+    fitModelCv hs false est le thr cfg th0 rows cols targets = ⟨[], false, fitModel est le thr cfg th0 rows cols targets⟩ := by
+  unfold fitModelCv fitModel
+  split
+  · rfl
+  split
+  · rfl
+  cases startLabels le thr targets cols cfg.direction with
+  | none => rfl
+  | some st => rfl
+
+/-- in `Model.fit` as a whole the search is reached iff the start labels were found; then what
+follows is `runFrom` (zero-iteration check, loop, final check) on the configured estimator -/
+theorem C12_search_then_fit (hs : HyperSearch ρ θ π) (needsCv : Bool) (est : Est ρ α θ) (le : α → α → Bool)
+    (thr : Rat) (cfg : FitCfg) (th0 : θ) (rows : List ρ) (targets : List Bool) (st : Start)
+    (hp : cfg.perm.Perm (List.range rows.length)) (hst : st.labels.length = rows.length) :
+    runFromCv hs needsCv est le thr cfg th0 rows targets st
+      = ⟨if needsCv then [cvSpec (if cfg.shuffle then cfg.perm else List.range rows.length) rows st.labels] else [],
+          false,
+          runFrom est le thr cfg
+            (cvTheta hs needsCv th0 (cvSpec (if cfg.shuffle then cfg.perm else List.range rows.length) rows st.labels))
+            rows targets st⟩ := by
+  unfold runFromCv runFrom
+  rw [fitLoopCv_eq hs needsCv est _ cfg.shuffle cfg.perm cfg.maxIter th0 rows st.labels hp hst]
+  rfl
+
+/-- **The chosen hyper-parameters do not depend on the shuffle.**  If the search ignores the order
+of its examples, it returns the same parameters for any two permutations and any two settings of
+the shuffle switch. -/
+theorem C12_search_shuffle_invariant (hs : HyperSearch ρ θ π) (hsearch : SearchPermInvariant hs)
+    (needsCv : Bool) (est : Est ρ α θ) (relabel : List α → List Int) (sh1 sh2 : Bool) (perm1 perm2 : List Nat)
+    (k : Nat) (th0 : θ) (rows : List ρ) (start : List Int)
+    (hp1 : perm1.Perm (List.range rows.length)) (hp2 : perm2.Perm (List.range rows.length))
+    (hst : start.length = rows.length) :
+    (∀ ex1 ∈ (fitLoopCv hs needsCv est relabel sh1 perm1 k th0 rows start).searches,
+      ∀ ex2 ∈ (fitLoopCv hs needsCv est relabel sh2 perm2 k th0 rows start).searches,
+        ex1.Perm ex2 ∧ hs.search ex1 = hs.search ex2) ∧
+    List.Forall₂ List.Perm (fitLoopCv hs needsCv est relabel sh1 perm1 k th0 rows start).searches
+      (fitLoopCv hs needsCv est relabel sh2 perm2 k th0 rows start).searches := by
+  have h1 := C12_search_pairs_aligned hs needsCv est relabel sh1 perm1 k th0 rows start hp1 hst
+  have h2 := C12_search_pairs_aligned hs needsCv est relabel sh2 perm2 k th0 rows start hp2 hst
+  constructor
+  · intro ex1 hex1 ex2 hex2
+    have hperm : ex1.Perm ex2 := (h1 ex1 hex1).2.1.trans (h2 ex2 hex2).2.1.symm
+    exact ⟨hperm, hsearch _ _ hperm⟩
+  · rw [(C12_search_once hs needsCv est relabel sh1 perm1 k th0 rows start hp1 hst).1,
+      (C12_search_once hs needsCv est relabel sh2 perm2 k th0 rows start hp2 hst).1]
+    split
+    · refine List.Forall₂.cons ?_ List.Forall₂.nil
+      apply List.Perm.filterMap
+      exact (appliedOrder_perm sh1 perm1 rows.length hp1).trans (appliedOrder_perm sh2 perm2 rows.length hp2).symm
+    · exact List.Forall₂.nil
+
+/-- **Search + loop.**  Order-insensitive search and order-insensitive `fit`: the final estimator
+state, `num_passed[-1]`, whether training aborted and the flag are the same for any two
+permutations / shuffle settings; corresponding search and `fit` calls receive permutations of the
+same examples. -/
+theorem C12_fitLoopCv_shuffle_invariant (hs : HyperSearch ρ θ π) (hsearch : SearchPermInvariant hs)
+    (needsCv : Bool) (est : Est ρ α θ) (hfit : PermInvariant est) (relabel : List α → List Int) (sh1 sh2 : Bool)
+    (perm1 perm2 : List Nat) (k : Nat) (th0 : θ) (rows : List ρ) (start : List Int)
+    (hp1 : perm1.Perm (List.range rows.length)) (hp2 : perm2.Perm (List.range rows.length))
+    (hst : start.length = rows.length)
+    (hrel : ∀ sc : List α, sc.length = rows.length → (relabel sc).length = rows.length) :
+    (fitLoopCv hs needsCv est relabel sh1 perm1 k th0 rows start).loop.final
+      = (fitLoopCv hs needsCv est relabel sh2 perm2 k th0 rows start).loop.final ∧
+    List.Forall₂ List.Perm (fitLoopCv hs needsCv est relabel sh1 perm1 k th0 rows start).loop.trace
+      (fitLoopCv hs needsCv est relabel sh2 perm2 k th0 rows start).loop.trace ∧
+    List.Forall₂ List.Perm (fitLoopCv hs needsCv est relabel sh1 perm1 k th0 rows start).searches
+      (fitLoopCv hs needsCv est relabel sh2 perm2 k th0 rows start).searches ∧
+    (fitLoopCv hs needsCv est relabel sh1 perm1 k th0 rows start).needsCv
+      = (fitLoopCv hs needsCv est relabel sh2 perm2 k th0 rows start).needsCv := by
+  have hS := (C12_search_shuffle_invariant hs hsearch needsCv est relabel sh1 sh2 perm1 perm2 k th0 rows start
+    hp1 hp2 hst).2
+  refine ⟨?_, ?_, hS, ?_⟩
+  all_goals
+    rw [fitLoopCv_eq hs needsCv est relabel sh1 perm1 k th0 rows start hp1 hst,
+      fitLoopCv_eq hs needsCv est relabel sh2 perm2 k th0 rows start hp2 hst]
+  all_goals
+    have hth : cvTheta hs needsCv th0 (cvSpec (appliedOrder sh1 perm1 rows.length) rows start)
+        = cvTheta hs needsCv th0 (cvSpec (appliedOrder sh2 perm2 rows.length) rows start) := by
+      unfold cvTheta
+      split
+      · rw [hsearch _ _ (cvSpec_perm
+          ((appliedOrder_perm sh1 perm1 rows.length hp1).trans (appliedOrder_perm sh2 perm2 rows.length hp2).symm)
+          rows start)]
+      · rfl
+    simp only [hth]
+  · exact (C12_fit_shuffle_invariant est hfit relabel sh1 sh2 perm1 perm2 k _ rows start hp1 hp2 hst hrel).1
+  · exact (C12_fit_shuffle_invariant est hfit relabel sh1 sh2 perm1 perm2 k _ rows start hp1 hp2 hst hrel).2
+
+/-- **`Model.fit` as a whole, with the search step** (checks, start labels, shuffle, search, loop,
+final check): for an order-insensitive search and an order-insensitive estimator the outcome
+(`ok` / which error), the learned state, the `_needs_cv` flag and — as multisets — the examples
+of every search and `fit` call do not depend on the shuffle switch nor on the permutation drawn.
+Extends `C12_fitModel_shuffle_invariant`. -/
+theorem C12_fitModelCv_shuffle_invariant (hs : HyperSearch ρ θ π) (hsearch : SearchPermInvariant hs)
+    (needsCv : Bool) (est : Est ρ α θ) (hfit : PermInvariant est) (le : α → α → Bool)
+    (thr : Rat) (cfg1 cfg2 : FitCfg) (hit : cfg1.maxIter = cfg2.maxIter) (hov : cfg1.override = cfg2.override)
+    (hdir : cfg1.direction = cfg2.direction) (th0 : θ) (rows : List ρ) (cols : List (List α))
+    (targets : List Bool) (hr : rows.length = targets.length) (hc : ∀ c ∈ cols, c.length = targets.length)
+    (hp1 : cfg1.perm.Perm (List.range rows.length)) (hp2 : cfg2.perm.Perm (List.range rows.length)) :
+    (fitModelCv hs needsCv est le thr cfg1 th0 rows cols targets).out.status
+      = (fitModelCv hs needsCv est le thr cfg2 th0 rows cols targets).out.status ∧
+    (fitModelCv hs needsCv est le thr cfg1 th0 rows cols targets).out.theta
+      = (fitModelCv hs needsCv est le thr cfg2 th0 rows cols targets).out.theta ∧
+    List.Forall₂ List.Perm (fitModelCv hs needsCv est le thr cfg1 th0 rows cols targets).out.trace
+      (fitModelCv hs needsCv est le thr cfg2 th0 rows cols targets).out.trace ∧
+    List.Forall₂ List.Perm (fitModelCv hs needsCv est le thr cfg1 th0 rows cols targets).searches
+      (fitModelCv hs needsCv est le thr cfg2 th0 rows cols targets).searches ∧
+    (fitModelCv hs needsCv est le thr cfg1 th0 rows cols targets).needsCv
+      = (fitModelCv hs needsCv est le thr cfg2 th0 rows cols targets).needsCv := by
+  unfold fitModelCv
+  split
+  · exact ⟨rfl, rfl, List.Forall₂.nil, List.Forall₂.nil, rfl⟩
+  split
+  · exact ⟨rfl, rfl, List.Forall₂.nil, List.Forall₂.nil, rfl⟩
+  rw [← hdir]
+  cases hst : startLabels le thr targets cols cfg1.direction with
+  | none => exact ⟨rfl, rfl, List.Forall₂.nil, List.Forall₂.nil, rfl⟩
+  | some st =>
+    have hlen : st.labels.length = rows.length := by
+      rw [hr]; exact startLabels_length le thr targets cols _ hc st hst
+    have hrel : ∀ sc : List α, sc.length = rows.length → (tdcRelabel le thr targets sc).length = rows.length := by
+      intro sc hsc; rw [tdcRelabel_length, hsc, hr]; simp
+    obtain ⟨h1, h2, h3, h4⟩ := C12_fitLoopCv_shuffle_invariant hs hsearch needsCv est hfit (tdcRelabel le thr targets)
+      cfg1.shuffle cfg2.shuffle cfg1.perm cfg2.perm cfg1.maxIter th0 rows st.labels hp1 hp2 hlen hrel
+    simp only [Option.map_some, Option.getD_some, runFromCv, ← hit, ← hov]
+    refine ⟨?_, ?_, ?_, h3, h4⟩
+    all_goals
+      split
+      · first | rfl | exact List.Forall₂.nil
+      unfold afterLoop
+      rw [← h1]
+      cases (fitLoopCv hs needsCv est (tdcRelabel le thr targets) cfg1.shuffle cfg1.perm cfg1.maxIter th0 rows
+        st.labels).loop.final with
+      | none => first | rfl | exact h2
+      | some res =>
+        simp only [Option.map_some, Option.getD_some, finish]
+        split
+        · first | rfl | exact h2
+        · first | rfl | exact h2
+
 /-! ## Non-vacuity: concrete inputs meeting every hypothesis used above -/
 
 /-- scores on `Int`, higher is better -/
@@ -379,6 +597,17 @@ example : PermInvariant cntEst := by
 
 /-- an order-*dependent* estimator (alignment theorems do not need `PermInvariant`) -/
 def headEst : Est Int Int Int := ⟨fun _ s => (s.headD (0, false)).1, fun th r => th * r⟩
+
+/-- a search that ignores the order of its examples (it counts the positives; `configure` adds the
+count to the estimator state) -/
+def cntSearch : HyperSearch Int Int Nat := ⟨fun ex => ex.countP (·.2), fun p th => th + p⟩
+
+example : SearchPermInvariant cntSearch := by
+  intro a b h
+  simp [cntSearch, h.countP_eq]
+
+/-- an order-*dependent* search (the alignment / once theorems do not need `SearchPermInvariant`) -/
+def headSearch : HyperSearch Int Int Int := ⟨fun ex => (ex.headD (0, false)).1, fun p th => th + p⟩
 
 example : ([2, 0, 3, 1] : List Nat).Perm (List.range 4) := by decide
 example : ∀ sc : List Int, sc.length = 4 → (tdcRelabel leI (1/2) [true, true, false, true] sc).length = 4 := by
@@ -404,6 +633,29 @@ example : TotalPre leI := leI_totalPre
           [5, -1, 3, 4] [1, 0, -1, 1]).final
     == (fitLoop cntEst (tdcRelabel leI (1/2) [true, true, false, true]) false [0, 1, 2, 3] 3 0
           [5, -1, 3, 4] [1, 0, -1, 1]).final
+-- the search step: shuffled rows with the labels of the same PSMs; PSM 1 (label 0) is left out
+#guard (fitLoopCv headSearch true headEst (tdcRelabel leI (1/2) [true, true, false, true]) true [2, 0, 3, 1] 2 0
+          [5, -1, 3, 4] [1, 0, -1, 1]).searches == [[(3, false), (5, true), (4, true)]]
+#guard (fitLoopCv headSearch true headEst (tdcRelabel leI (1/2) [true, true, false, true]) false [2, 0, 3, 1] 2 0
+          [5, -1, 3, 4] [1, 0, -1, 1]).searches == [[(5, true), (3, false), (4, true)]]
+#guard (fitLoopCv headSearch false headEst (tdcRelabel leI (1/2) [true, true, false, true]) true [2, 0, 3, 1] 2 0
+          [5, -1, 3, 4] [1, 0, -1, 1]).searches == []
+-- the search sees what the first loop iteration sees
+#guard (fitLoopCv headSearch true headEst (tdcRelabel leI (1/2) [true, true, false, true, false]) true
+          [2, 0, 3, 1, 4] 3 0 [-1, 5, 3, 4, -6] [1, 0, -1, 0, -1]).searches
+    == (fitLoopCv headSearch true headEst (tdcRelabel leI (1/2) [true, true, false, true, false]) true
+          [2, 0, 3, 1, 4] 3 0 [-1, 5, 3, 4, -6] [1, 0, -1, 0, -1]).loop.trace.take 1
+-- order-insensitive search + estimator: same final state with and without shuffling; the search changed it
+#guard (fitLoopCv cntSearch true cntEst (tdcRelabel leI (1/2) [true, true, false, true]) true [2, 0, 3, 1] 3 0
+          [5, -1, 3, 4] [1, 0, -1, 1]).loop.final
+    == (fitLoopCv cntSearch true cntEst (tdcRelabel leI (1/2) [true, true, false, true]) false [0, 1, 2, 3] 3 0
+          [5, -1, 3, 4] [1, 0, -1, 1]).loop.final
+#guard (fitLoopCv cntSearch true cntEst (tdcRelabel leI (1/2) [true, true, false, true]) true [2, 0, 3, 1] 3 0
+          [5, -1, 3, 4] [1, 0, -1, 1]).loop.final
+    != (fitLoop cntEst (tdcRelabel leI (1/2) [true, true, false, true]) true [2, 0, 3, 1] 3 0
+          [5, -1, 3, 4] [1, 0, -1, 1]).final
+#guard (fitModelCv cntSearch true cntEst leI (1/2) ⟨true, [2, 0, 3, 1], 2, true, none⟩ 0 [5, -1, 3, 4]
+          [[5, -1, 3, 4]] [true, true, false, true]).searches == [[(3, false), (5, true), (4, true)]]
 #guard gather (gather [10, 11, 12, 13] [2, 0, 3, 1]) (argsort [2, 0, 3, 1]) == [10, 11, 12, 13]
 #guard argsort [2, 0, 3, 1] == [1, 3, 0, 2]
 #guard predictByName (fun r : List Int => r.sum) ["a", "b"] 2 [("b", [3, 4]), ("a", [1, 2])] == some [4, 6]
